@@ -929,8 +929,9 @@ class IrcState(IrcCommandDispatcher, log.Firewalled):
         try:
             chan = self.channels[channel]
         except KeyError:
-            chan = ChannelState()
-            self.channels[channel] = chan
+            # We have left (or been kicked of) the channel before the server
+            # replied to the MODE command we send on joining.
+            return
         for (mode, value) in ircutils.separateModes(msg.args[2:]):
             modeChar = mode[1]
             if mode[0] == '+' and mode[1] not in 'ovh':
@@ -944,8 +945,7 @@ class IrcState(IrcCommandDispatcher, log.Firewalled):
         try:
             chan = self.channels[channel]
         except KeyError:
-            chan = ChannelState()
-            self.channels[channel] = chan
+            return # See do324.
         chan.created = int(msg.args[2])
 
     def doPart(self, irc, msg):
